@@ -162,8 +162,36 @@ func round15Harmless() []mutant {
 	return out
 }
 
+// round18Unresolved: correct changes of round 18 on which a rule still reports (see DESIGN §11).
+var round18Unresolved = map[string]string{}
+
+// round18Harmless: the correct changes of round 18 (refactors/r18/<property>/{a,b,c}.diff: performance by
+// reuse or caching, performance by a fast path or by doing less, robustness / concurrency hygiene).
+func round18Harmless() []mutant {
+	var out []mutant
+	ms, _ := filepath.Glob(filepath.Join(verifDir, "refactors", "r18", "*", "?.diff"))
+	sort.Strings(ms)
+	for _, m := range ms {
+		prop := filepath.Base(filepath.Dir(m))
+		rel, err := filepath.Rel(verifDir, m)
+		if err != nil {
+			continue
+		}
+		letter := strings.TrimSuffix(filepath.Base(m), ".diff")
+		if _, skip := round18Unresolved[prop+"/"+letter]; skip {
+			continue
+		}
+		id := "h-r18-" + prop + "-" + letter
+		if b, err := os.ReadFile(m); err == nil && (strings.Contains(string(b), "faiss_vector") || strings.Contains(string(b), "section_faiss")) {
+			out = append(out, mutant{Harmless: true, ID: id + "-vectors", Patch: rel, Vectors: true})
+		}
+		out = append(out, mutant{Harmless: true, ID: id, Patch: rel})
+	}
+	return out
+}
+
 func harmlessTable() []mutant {
-	return append(append(append(append(append(append(fixedHarmless(), smallHarmless()...), round8Harmless()...), round9Harmless()...), round12Harmless()...), round13Harmless()...), round15Harmless()...)
+	return append(append(append(append(append(append(append(fixedHarmless(), smallHarmless()...), round8Harmless()...), round9Harmless()...), round12Harmless()...), round13Harmless()...), round15Harmless()...), round18Harmless()...)
 }
 
 func fixedHarmless() []mutant {
@@ -444,5 +472,22 @@ func fixedHarmless() []mutant {
 		{Harmless: true, ID: "h-r16-C18n-fixed", Patch: "seeded/C18n-plumb-poll-helper-skipped-for-empty/fixed.diff"},
 		{Harmless: true, ID: "h-r16-C19n-fixed", Patch: "seeded/C19n-plumb-newmergedindex-deferred-close-reads-nil-result/fixed.diff"},
 		{Harmless: true, ID: "h-r16-C20n-fixed", Patch: "seeded/C20n-plumb-close-chains-to-segmentbase-close/fixed.diff"},
+		{Harmless: true, ID: "h-r17-C01p-fixed", Patch: "seeded/C01p-perf-realloc-tally-skips-locations/fixed.diff"},
+		{Harmless: true, ID: "h-r17-C02p-fixed", Patch: "seeded/C02p-perf-stored-meta-uvarint-single-byte/fixed.diff"},
+		{Harmless: true, ID: "h-r17-C03p-fixed", Patch: "seeded/C03p-perf-docvalue-lookup-cursor/fixed.diff"},
+		{Harmless: true, ID: "h-r17-C04p-fixed", Patch: "seeded/C04p-robust-validate-docvalue-chunk-count/fixed.diff"},
+		{Harmless: true, ID: "h-r17-C05p-fixed", Patch: "seeded/C05p-perf-drop-iterator-stale-across-segments/fixed.diff"},
+		{Harmless: true, ID: "h-r17-C07p-fixed", Patch: "seeded/C07p-perf-keep-actual-bitmap-ownership-flag/fixed.diff"},
+		{Harmless: true, ID: "h-r17-C08p-fixed", Patch: "seeded/C08p-perf-term-span-fast-path-inclusive-bound/fixed.diff"},
+		{Harmless: true, ID: "h-r17-C09p-fixed", Patch: "seeded/C09p-perf-build-onehit-skips-docvalues/fixed.diff"},
+		{Harmless: true, ID: "h-r17-C11p-fixed", Patch: "seeded/C11p-perf-decoded-synonyms-cache-cleared-on-reuse/fixed.diff"},
+		{Harmless: true, ID: "h-r17-C12p-fixed", Patch: "seeded/C12p-perf-thesaurus-bitmap-cache-shared/fixed.diff"},
+		{Harmless: true, ID: "h-r17-C13p-fixed", Patch: "seeded/C13p-perf-synonym-pairs-batched-exact-multiple/fixed.diff"},
+		{Harmless: true, ID: "h-r17-C14p-fixed", Patch: "seeded/C14p-perf-filter-covers-all-vectors-wrong-map/fixed.diff"},
+		{Harmless: true, ID: "h-r17-C15p-fixed", Patch: "seeded/C15p-perf-sole-intact-input-wrong-drops/fixed.diff"},
+		{Harmless: true, ID: "h-r17-C16p-fixed", Patch: "seeded/C16p-perf-read-index-outside-lock-loser-leaks/fixed.diff"},
+		{Harmless: true, ID: "h-r17-C18p-fixed", Patch: "seeded/C18p-robust-write-to-tmp-cleanup-removes-final-path/fixed.diff"},
+		{Harmless: true, ID: "h-r17-C19p-fixed", Patch: "seeded/C19p-perf-single-source-fast-path-skips-error-check/fixed.diff"},
+		{Harmless: true, ID: "h-r17-C20p-fixed", Patch: "seeded/C20p-robust-merge-pins-inputs-unpins-on-success-only/fixed.diff"},
 	}
 }
